@@ -405,6 +405,32 @@ let run (t : string array) : string =
       Printf.sprintf "%s:%d:%d" (hex f.f_content) (int_of_z f.f_mode) (int_of_z f.f_mtime) in
     Printf.sprintf "ok %s result=%s in=%s out=%s stdout=%s" (String.concat "," (List.map opn r.r_trace))
       (match r.r_result with Done_ok -> "ok" | Done_err -> "err" | Killed -> "killed") (fdesc 1) (fdesc 2) (hex so)
+  (* sched_trace <filters> <images> <caller_is_worker 0|1> <events S,D,B<i>c|o,T<i>+|-,E<i>,X,Z> : the recorded protocol events as a run of the LTS *)
+  | "sched_trace" ->
+    let c = { n_filters = nat_of_int (int_of_string t.(1)); caller_is_worker = t.(3) = "1"; others = true } in
+    let n = int_of_string t.(2) in
+    let evs = if t.(4) = "-" then [] else String.split_on_char ',' t.(4) in
+    let num s a b = nat_of_int (int_of_string (String.sub s a (String.length s - a - b))) in
+    let rec go s k = function
+      | [] -> Printf.sprintf "ok phase=%s recvd=%d steps=%d mu_left=%d"
+                (match s.cph with CSubmit _ -> "submit" | CSpin -> "spin" | CRecv -> "recv" | CDone -> "done") (int_of_nat s.recvd) k (int_of_nat (mu c s))
+      | e :: rest ->
+        let moves = match e.[0] with
+          | 'S' -> [ESubmit] | 'D' -> [EDropSender] | 'X' -> [ESpinExit]
+          | 'B' -> [EStart (num e 1 1, e.[String.length e - 1] = 'c')]
+          | 'T' -> [ETrial (num e 1 1, e.[String.length e - 1] = '+')]
+          | 'E' -> [EFinish (num e 1 0)]
+          | 'Z' -> List.init (int_of_nat s.queue) (fun _ -> ERecv) @ [ERecvEnd]
+          | _ -> failwith "bad event" in
+        let rec app s = function
+          | [] -> Some s
+          | m :: ms -> (match sstep c s m with Some s' -> app s' ms | None -> None) in
+        (match app s moves with
+         | Some s' -> go s' (k + List.length moves) rest
+         | None -> Printf.sprintf "stuck at=%d event=%s phase=%s nth=%d executed=%d senders=%d queue=%d" k e
+                     (match s.cph with CSubmit _ -> "submit" | CSpin -> "spin" | CRecv -> "recv" | CDone -> "done")
+                     (int_of_nat s.s_nth) (int_of_nat s.s_executed) (int_of_nat s.senders) (int_of_nat s.queue)) in
+    go (sinit (nat_of_int n)) 0 evs
   | "preset" -> "ok " ^ fmt_opts (from_preset (z_of_int (int_of_string t.(1))))
   | "default_opts" -> "ok " ^ fmt_opts default_options
   | "crc32" -> Printf.sprintf "ok %d" (int_of_z (crc32 (unhex t.(1))))
